@@ -850,6 +850,8 @@ theorem Inv_exec (s : S1) (h : List Op) (hi : Inv s) (hp : proto s.status h = tr
 
 /-! ## what gets appended to the file -/
 
+theorem fileLines_some (c : List Line) : fileLines (some c) = c := rfl
+
 theorem recsOf_append (a b : List Line) : recsOf (a ++ b) = recsOf a ++ recsOf b := by
   induction a with
   | nil => rfl
@@ -1543,5 +1545,1539 @@ theorem apply_share_stamp (w : World) (o : WOp) (j : Nat) :
     by_cases h : j = sid
     · subst h; simp [setShare_same]
     · simp [setShare_other _ _ _ _ h]
+
+/-- `lateWriteOp` for a single log -/
+theorem lateWriteOp_single (s : S1) (op : Op) :
+    lateWriteOp s.toSys op =
+      match op with
+      | .w (.write sid _ _) =>
+        (s.log.rule = .update && s.log.stamp.isSome && s.log.stamp == s.world.stamp &&
+          s.log.loggees.any (·.2 == sid))
+      | _ => false := by
+  cases op with
+  | ctl c => rfl
+  | w o => cases o <;> simp [lateWriteOp, S1.toSys]
+
+theorem U_step_w (i : Ideal) (o : WOp) (hu : InvU i) (hr : i.s.log.rule = .update)
+    (t' : Int) (ht : ∃ t, i.s.world.stamp = some t ∧ t ≤ t') (hst : opStamp i.s.world.stamp (.w o) = some t')
+    (hl : lateWriteOp i.s.toSys (.w o) = false) :
+    (i.step (.w o)).1.s = (i.s.step (.w o)).1 ∧ InvU (i.step (.w o)).1 := by
+  refine ⟨rfl, ?_⟩
+  obtain ⟨t, hwt, hle⟩ := ht
+  obtain ⟨t0, hw0, hsh, hlg⟩ := hu.now
+  have ht0 : t0 = t := by rw [hwt] at hw0; exact (Option.some.inj hw0).symm
+  subst ht0
+  have hstamp' : (i.s.world.apply o).stamp = some t' := by rw [apply_stamp]; exact hst
+  have hshare' : ∀ sid σ, ((i.s.world.apply o).shares sid).stamp = some σ → σ ≤ t' := by
+    intro sid σ h
+    rw [apply_share_stamp] at h
+    cases o with
+    | write s2 f v =>
+      simp only at h
+      split at h
+      · rw [hwt] at h
+        have : t0 = σ := Option.some.inj h
+        omega
+      · have := hsh sid σ h; omega
+    | setStamp x => have := hsh sid σ h; omega
+    | advance d => have := hsh sid σ h; omega
+    | poke s2 f v => have := hsh sid σ h; omega
+    | append s2 f a => have := hsh sid σ h; omega
+    | push s2 e => have := hsh sid σ h; omega
+  refine ⟨hu.logged, ⟨t', hstamp', hshare', fun ls h => by have := hlg ls h; omega⟩, ?_⟩
+  intro ls hls0
+  have hls : i.s.log.stamp = some ls := hls0
+  show (i.dirty || touches i.s.log o) = true ↔ anyNewer (i.s.world.apply o) ls i.s.log.loggees = true
+  have hd := hu.dirty ls hls
+  have hlt := hlg ls hls
+  by_cases htouch : touches i.s.log o = true
+  · -- a stamped write to a loggee: not late, so the share's new stamp is newer than the log's
+    cases o with
+    | write sid f v =>
+      simp only [touches] at htouch
+      rw [lateWriteOp_single] at hl
+      simp only [hr, hls, hwt, decide_true, Option.isSome_some, Bool.true_and, htouch, Bool.and_true,
+        beq_eq_false_iff_ne, ne_eq, Option.some.injEq] at hl
+      have hlt' : ls < t0 := by omega
+      have htouch' : touches i.s.log (.write sid f v) = true := htouch
+      have : anyNewer (i.s.world.apply (.write sid f v)) ls i.s.log.loggees = true := by
+        apply anyNewer_true_of _ _ _ sid t0 htouch _ hlt'
+        rw [apply_share_stamp]; simp [hwt]
+      rw [this, htouch']
+      simp
+    | setStamp x => simp [touches] at htouch
+    | advance d => simp [touches] at htouch
+    | poke s2 f v => simp [touches] at htouch
+    | append s2 f a => simp [touches] at htouch
+    | push s2 e => simp [touches] at htouch
+  · have htf : touches i.s.log o = false := by simpa using htouch
+    have : anyNewer (i.s.world.apply o) ls i.s.log.loggees = anyNewer i.s.world ls i.s.log.loggees := by
+      apply anyNewer_congr
+      intro p hp
+      rw [apply_share_stamp]
+      cases o with
+      | write sid f v =>
+        simp only [touches] at htf
+        have : p.2 ≠ sid := by
+          intro h
+          rw [List.any_eq_false] at htf
+          exact htf p hp (by simp [h])
+        simp [this]
+      | setStamp x => rfl
+      | advance d => rfl
+      | poke s2 f v => rfl
+      | append s2 f a => rfl
+      | push s2 e => rfl
+    rw [this, htf, Bool.or_false]
+    exact hd
+
+/-- the ideal logger after it wrote a record -/
+def Ideal.afterLog (j : Ideal) : Ideal :=
+  { j with
+    s := { j.s with log := j.s.log.logged j.s.world }
+    logged := true
+    dirty := false
+    last := snapshot j.s.world j.s.log.loggees j.s.log.fields }
+
+/-- one run of an update log: the ideal decision (`¬logged ∨ dirty`) is the code's
+(`stamp is None` or some loggee stamp newer), and the invariant is re-established -/
+theorem U_run (j : Ideal) (hu : InvU j) (hr : j.s.log.rule = .update) (hc : cfgOk j.s.log = true)
+    (ho : j.s.log.isOpen = true) (hp : Prepared j.s.log) :
+    (j.logRun).1.s = (j.s.logRun).1 ∧ (j.logRun).2 = (j.s.logRun).2 ∧ InvU (j.logRun).1 := by
+  obtain ⟨t, hwt, hsh, hlg⟩ := hu.now
+  have hcode := act_update j.s.world j.s.log hr hc ho hp
+  have hlog := log_eq j.s.world j.s.log hc ho hp
+  -- the state after writing a record
+  have hafter : InvU (Ideal.afterLog j) := by
+    unfold Ideal.afterLog
+    refine ⟨by simp [Log.logged, hwt], ⟨t, hwt, hsh, ?_⟩, ?_⟩
+    · intro ls h
+      simp only [Log.logged, hwt] at h
+      have : t = ls := Option.some.inj h
+      omega
+    · intro ls h
+      simp only [Log.logged, hwt] at h
+      have : t = ls := Option.some.inj h
+      subst this
+      simp only [Log.logged]
+      rw [anyNewer_false_of_le _ _ _ hsh]
+  cases hs : j.s.log.stamp with
+  | none =>
+    have hnl : j.logged = false := by
+      cases h : j.logged with
+      | false => rfl
+      | true => exact absurd hs (hu.logged.1 h)
+    have hw : j.wants = true := by simp [Ideal.wants, hr, hnl]
+    simp only [Ideal.logRun, hr, hw, if_true, hlog, S1.logRun, hcode, hs]
+    exact ⟨trivial, trivial, hafter⟩
+  | some ls =>
+    have hlg' : j.logged = true := hu.logged.2 (by rw [hs]; simp)
+    have hd := hu.dirty ls hs
+    by_cases hn : anyNewer j.s.world ls j.s.log.loggees = true
+    · have hw : j.wants = true := by simp [Ideal.wants, hr, hd.2 hn]
+      simp only [Ideal.logRun, hr, hw, if_true, hlog, S1.logRun, hcode, hs, hn]
+      exact ⟨trivial, trivial, hafter⟩
+    · have hdf : j.dirty = false := by
+        cases h : j.dirty with
+        | false => rfl
+        | true => exact absurd (hd.1 h) hn
+      have hw : j.wants = false := by simp [Ideal.wants, hr, hlg', hdf]
+      simp only [Ideal.logRun, hr, hw, S1.logRun, hcode, hs, hn]
+      exact ⟨rfl, rfl, hu⟩
+
+theorem U_step (i : Ideal) (op : Op) (hi : Inv i.s) (hu : InvU i) (hr : i.s.log.rule = .update)
+    (hok : ∀ c, op = .ctl c → ctlOk i.s.status c = true)
+    (t' : Int) (ht : ∃ t, i.s.world.stamp = some t ∧ t ≤ t') (hst : opStamp i.s.world.stamp op = some t')
+    (hl : lateWriteOp i.s.toSys op = false) :
+    (i.step op).1.s = (i.s.step op).1 ∧ InvU (i.step op).1 := by
+  cases op with
+  | w o => exact U_step_w i o hu hr t' ht hst hl
+  | ctl c =>
+    have hc := hok c rfl
+    simp only [Ideal.step, S1.step]
+    by_cases hrun : isRun i.s.status c = true
+    · obtain ⟨f1, f2, f3, f4, _, f6, f7⟩ := actLog_facts i.s c hi hc hrun
+      have hj : InvU (i.actOn c) := by
+        refine ⟨?_, ?_, ?_⟩
+        · rw [actOn_s]; simp only [f6]
+          cases c <;> exact hu.logged
+        · rw [actOn_s]; simp only [f6]; exact hu.now
+        · rw [actOn_s]; simp only [f6, f7]
+          cases c <;> exact hu.dirty
+      have hjr : (i.actOn c).s.log.rule = .update := by rw [actOn_s]; exact f4.trans hr
+      obtain ⟨r1, r2, r3⟩ := U_run (i.actOn c) hj hjr (by rw [actOn_s]; exact f1)
+        (by rw [actOn_s]; exact f2) (by rw [actOn_s]; exact f3)
+      obtain ⟨a1, a2, a3, a4⟩ := ideal_send_agree i c hi hc (fun _ => ⟨r1, r2⟩)
+      refine ⟨a1, ?_⟩
+      -- the ideal state after the control differs from `(actOn).logRun` only in status / open flag
+      have hS := send_recs i.s c hi hc
+      have hshape := send_shape i.s c hi hc
+      simp only [hrun, if_true] at a2 a3 a4
+      obtain ⟨t, hwt, hsh, hlg⟩ := r3.now
+      have hworld : (i.send c).1.s.world = ((i.actOn c).logRun).1.s.world := by
+        rw [a1, r1, hS.2.1]; simp only [hrun, if_true, S1.logRun, actOn_s]
+      have hstamp : (i.send c).1.s.log.stamp = ((i.actOn c).logRun).1.s.log.stamp := by
+        rw [a1, r1, hS.2.2]; simp only [hrun, if_true, S1.logRun, actOn_s]
+      have hlgs : (i.send c).1.s.log.loggees = ((i.actOn c).logRun).1.s.log.loggees := by
+        rw [a1, r1]
+        have h1 := (step_rule i.s (.ctl c) hi hok).2
+        simp only [S1.step] at h1
+        rw [h1]
+        simp only [S1.logRun, actOn_s]
+        rw [loggees_of_same (act_same _ _), f7]
+      refine ⟨?_, ?_, ?_⟩
+      · rw [a2, hstamp]; exact r3.logged
+      · rw [hworld, hstamp]; exact r3.now
+      · rw [hworld, hstamp, hlgs, a3]; exact r3.dirty
+    · have hnr : isRun i.s.status c = false := by simpa using hrun
+      obtain ⟨a1, a2, a3, a4⟩ := ideal_send_agree i c hi hc (fun h => absurd h hrun)
+      refine ⟨a1, ?_⟩
+      have hS := send_recs i.s c hi hc
+      simp only [hnr, Bool.false_eq_true, if_false] at a2 a3 a4 hS
+      have h1 := (step_rule i.s (.ctl c) hi hok).2
+      simp only [S1.step] at h1
+      refine ⟨?_, ?_, ?_⟩
+      · rw [a2, a1, hS.2.2]; exact hu.logged
+      · rw [a1, hS.2.1, hS.2.2]; exact hu.now
+      · rw [a1, hS.2.1, hS.2.2, h1, a3]; exact hu.dirty
+
+theorem U_exec (i : Ideal) (h : List Op) (hi : Inv i.s) (hu : InvU i) (hr : i.s.log.rule = .update)
+    (hp : proto i.s.status h = true) (ht : timed i.s.world.stamp h = true)
+    (hl : lateWrite i.s.toSys h = false) :
+    (i.exec h).s = i.s.exec h := by
+  induction h generalizing i with
+  | nil => rfl
+  | cons op rest ih =>
+    obtain ⟨hok, hi', hp'⟩ := thread i.s op rest hi hp
+    obtain ⟨t, t', hst0, hst1, hle, ht'⟩ := timed_cons _ _ _ ht
+    simp only [lateWrite, Bool.or_eq_false_iff] at hl
+    obtain ⟨q1, q2⟩ := U_step i op hi hu hr hok t' ⟨t, hst0, hle⟩ hst1 hl.1
+    have hws := step_world_stamp i.s op hi hok
+    rw [hst1] at hws
+    simp only [Ideal.exec, S1.exec]
+    rw [← q1] at hi' hp' hws
+    rw [ih (i.step op).1 hi' q2 (by rw [q1]; exact (step_rule i.s op hi hok).1.trans hr) hp'
+      (by rw [hws]; exact ht') (by have := hl.2; rw [toSys_step] at this; rw [q1]; exact this), q1]
+
+/-- the ideal logger next to a fresh code state -/
+def Ideal.ofS1 (s : S1) : Ideal := { s := s }
+
+theorem InvU_fresh (s : S1) (hf : Fresh s)
+    (hw : ∃ t, s.world.stamp = some t ∧ ∀ sid σ, (s.world.shares sid).stamp = some σ → σ ≤ t) :
+    InvU (Ideal.ofS1 s) := by
+  obtain ⟨t, h1, h2⟩ := hw
+  refine ⟨by simp [Ideal.ofS1, hf.stamp], ⟨t, h1, h2, ?_⟩, ?_⟩
+  · intro ls h; simp [Ideal.ofS1, hf.stamp] at h
+  · intro ls h; simp [Ideal.ofS1, hf.stamp] at h
+
+/-! ## Python equality is an equivalence on the modelled values -/
+
+theorem Atom.pyEq_refl (a : Atom) : a.pyEq a = true := by
+  cases a <;> simp [Atom.pyEq, Atom.num]
+
+theorem Atom.pyEq_symm (a b : Atom) : a.pyEq b = b.pyEq a := by
+  unfold Atom.pyEq
+  cases ha : a.num <;> cases hb : b.num <;> simp only []
+  · exact Bool.eq_iff_iff.2 ⟨fun h => by simp at h ⊢; exact h.symm, fun h => by simp at h ⊢; exact h.symm⟩
+  · exact Bool.eq_iff_iff.2 ⟨fun h => by simp at h ⊢; exact h.symm, fun h => by simp at h ⊢; exact h.symm⟩
+
+theorem Atom.pyEq_trans (a b c : Atom) (h1 : a.pyEq b = true) (h2 : b.pyEq c = true) : a.pyEq c = true := by
+  unfold Atom.pyEq at *
+  cases ha : a.num <;> cases hb : b.num <;> cases hc : c.num <;> simp_all
+
+theorem pyEqList_refl (l : List Atom) : pyEqList l l = true := by
+  induction l with
+  | nil => rfl
+  | cons a r ih => simp [pyEqList, Atom.pyEq_refl, ih]
+
+theorem pyEqList_symm (l m : List Atom) : pyEqList l m = pyEqList m l := by
+  induction l generalizing m with
+  | nil => cases m <;> rfl
+  | cons a r ih =>
+    cases m with
+    | nil => rfl
+    | cons b t => simp [pyEqList, Atom.pyEq_symm a b, ih t]
+
+theorem pyEqList_trans (l m n : List Atom) (h1 : pyEqList l m = true) (h2 : pyEqList m n = true) :
+    pyEqList l n = true := by
+  induction l generalizing m n with
+  | nil =>
+    cases m with
+    | nil => exact h2
+    | cons b t => simp [pyEqList] at h1
+  | cons a r ih =>
+    cases m with
+    | nil => simp [pyEqList] at h1
+    | cons b t =>
+      cases n with
+      | nil => simp [pyEqList] at h2
+      | cons c u =>
+        simp only [pyEqList, Bool.and_eq_true] at h1 h2 ⊢
+        exact ⟨Atom.pyEq_trans a b c h1.1 h2.1, ih t u h1.2 h2.2⟩
+
+theorem Val.pyEq_refl (v : Val) : v.pyEq v = true := by
+  cases v <;> simp [Val.pyEq, Atom.pyEq_refl, pyEqList_refl]
+
+theorem Val.pyEq_symm (a b : Val) : a.pyEq b = b.pyEq a := by
+  cases a <;> cases b <;> simp [Val.pyEq, Atom.pyEq_symm, pyEqList_symm]
+
+theorem Val.pyEq_trans (a b c : Val) (h1 : a.pyEq b = true) (h2 : b.pyEq c = true) : a.pyEq c = true := by
+  cases a <;> cases b <;> cases c <;> simp [Val.pyEq] at h1 h2 ⊢
+  · exact Atom.pyEq_trans _ _ _ h1 h2
+  · exact pyEqList_trans _ _ _ h1 h2
+
+theorem cellNe_self (a : Option Val) : cellNe a a = false := by
+  cases a <;> simp [cellNe, Val.pyEq_refl]
+
+theorem cellNe_symm (a b : Option Val) : cellNe a b = cellNe b a := by
+  cases a <;> cases b <;> simp [cellNe, Val.pyEq_symm]
+
+/-- comparing against equal cells gives the same answer -/
+theorem cellNe_congr (x a b : Option Val) (h : cellNe a b = false) : cellNe x a = cellNe x b := by
+  cases x <;> cases a <;> cases b <;> simp [cellNe] at h ⊢
+  rename_i x a b
+  cases h1 : x.pyEq a <;> cases h2 : x.pyEq b <;> simp
+  · have := Val.pyEq_trans x b a h2 (by rw [Val.pyEq_symm]; exact h)
+    rw [h1] at this; cases this
+  · have := Val.pyEq_trans x a b h1 h
+    rw [h2] at this; cases this
+
+/-! ## change rule: selective update of `.lasts` = comparison with the values last logged -/
+
+theorem changeFields_spec (data : Dict Val) (last : Dict Val) (fs : List String)
+    (hk : ∀ f ∈ fs, dget last f ≠ none → dget data f ≠ none) :
+    (changeFields data last fs).1 = fs.any (fun f => cellNe (dget data f) (dget last f)) ∧
+    ∀ g, dget (changeFields data last fs).2 g =
+      if g ∈ fs ∧ cellNe (dget data g) (dget last g) = true then dget data g else dget last g := by
+  induction fs generalizing last with
+  | nil => simp [changeFields]
+  | cons f fs ih =>
+    have hk' : ∀ f' ∈ fs, dget last f' ≠ none → dget data f' ≠ none :=
+      fun f' h' => hk f' (List.mem_cons_of_mem _ h')
+    -- the two ways the head can go
+    have same : cellNe (dget data f) (dget last f) = false →
+        (changeFields data last fs).1 = fs.any (fun f => cellNe (dget data f) (dget last f)) →
+        (∀ g, dget (changeFields data last fs).2 g =
+          if g ∈ fs ∧ cellNe (dget data g) (dget last g) = true then dget data g else dget last g) →
+        (changeFields data last fs).1 =
+            (f :: fs).any (fun f => cellNe (dget data f) (dget last f)) ∧
+        ∀ g, dget (changeFields data last fs).2 g =
+          if g ∈ f :: fs ∧ cellNe (dget data g) (dget last g) = true then dget data g else dget last g := by
+      intro hne h1 h2
+      refine ⟨by simp [List.any_cons, hne, h1], ?_⟩
+      intro g
+      rw [h2 g]
+      by_cases hg : g = f
+      · subst hg; simp [hne]
+      · simp [hg]
+    have upd : ∀ v, dget data f = some v → cellNe (dget data f) (dget last f) = true →
+        (true = (f :: fs).any (fun f => cellNe (dget data f) (dget last f))) ∧
+        ∀ g, dget (changeFields data (dset last f v) fs).2 g =
+          if g ∈ f :: fs ∧ cellNe (dget data g) (dget last g) = true then dget data g else dget last g := by
+      intro v hv hne
+      refine ⟨by simp [List.any_cons, hne], ?_⟩
+      intro g
+      have hk1 : ∀ f' ∈ fs, dget (dset last f v) f' ≠ none → dget data f' ≠ none := by
+        intro f' h' hn
+        rw [dget_dset] at hn
+        by_cases hf' : f' = f
+        · subst hf'; rw [hv]; simp
+        · simp only [hf', if_false] at hn; exact hk' f' h' hn
+      rw [(ih (dset last f v) hk1).2 g, dget_dset]
+      by_cases hg : g = f
+      · subst hg
+        rw [hv] at hne
+        simp only [hv, if_true, cellNe_self, Bool.false_eq_true, and_false, if_false, List.mem_cons,
+          true_or, hne, and_self]
+      · simp [hg]
+    unfold changeFields
+    cases hl : dget last f with
+    | none =>
+      cases hd : dget data f with
+      | none =>
+        have := ih last hk'
+        exact same (by simp [hl, hd, cellNe]) this.1 this.2
+      | some v =>
+        have := upd v hd (by simp [hl, hd, cellNe])
+        simp only []
+        exact ⟨this.1, this.2⟩
+    | some lv =>
+      cases hd : dget data f with
+      | none =>
+        exact absurd hd (hk f (by simp) (by rw [hl]; simp))
+      | some v =>
+        simp only []
+        by_cases hpe : v.pyEq lv = true
+        · simp only [hpe, if_true]
+          have := ih last hk'
+          exact same (by simp [hl, hd, cellNe, hpe]) this.1 this.2
+        · have hpf : v.pyEq lv = false := by simpa using hpe
+          simp only [hpf, Bool.false_eq_true, if_false]
+          have := upd v hd (by simp [hl, hd, cellNe, hpf])
+          exact ⟨this.1, this.2⟩
+
+/-- `f` is a logged field of `tag` whose current cell differs from the one kept in `L` -/
+def changedAtB (w : World) (lg : Dict Nat) (F : Dict (List String)) (L : Dict (Dict Val))
+    (tag f : String) : Bool :=
+  match dget F tag with
+  | some fs => decide (f ∈ fs) && cellNe (curCell w lg tag f) (dgetD2 L tag f)
+  | none => false
+
+/-- the change flag as a plain double loop over the logged fields: `differs` against `.lasts` -/
+abbrev anyChanged (w : World) (lg : Dict Nat) (L : Dict (Dict Val)) (F : Dict (List String)) : Bool :=
+  differs w lg L F
+
+theorem dgetD2_dset (L : Dict (Dict Val)) (tag : String) (m : Dict Val) (t f : String) :
+    dgetD2 (dset L tag m) t f = if t = tag then dget m f else dgetD2 L t f := by
+  unfold dgetD2
+  rw [dget_dset]
+  by_cases h : t = tag <;> simp [h]
+
+theorem any_congr_mem {α : Type} (l : List α) (p q : α → Bool) (h : ∀ a ∈ l, p a = q a) :
+    l.any p = l.any q := by
+  induction l with
+  | nil => rfl
+  | cons a r ih =>
+    simp only [List.any_cons]
+    rw [h a (by simp), ih (fun b hb => h b (by simp [hb]))]
+
+theorem dget_none_of_not_mem {α : Type} (d : Dict α) (k : String) (h : k ∉ dkeys d) : dget d k = none := by
+  cases hd : dget d k with
+  | none => rfl
+  | some v => exact absurd ((dget_ne_none_iff_mem d k).1 (by rw [hd]; simp)) h
+
+theorem changeTags_spec (w : World) (lg : Dict Nat) (F : Dict (List String)) (L : Dict (Dict Val))
+    (hnd : (dkeys F).Nodup)
+    (hL : ∀ t ∈ dkeys F, dget L t ≠ none ∧ dget lg t ≠ none)
+    (hk : ∀ t f, t ∈ dkeys F → dgetD2 L t f ≠ none → curCell w lg t f ≠ none) :
+    (changeTags w lg L F).2.2 = none ∧
+    (changeTags w lg L F).1 = anyChanged w lg L F ∧
+    ∀ t f, dgetD2 (changeTags w lg L F).2.1 t f =
+      if changedAtB w lg F L t f then curCell w lg t f else dgetD2 L t f := by
+  induction F generalizing L with
+  | nil => simp [changeTags, anyChanged, differs, changedAtB, dget]
+  | cons p rest ih =>
+    obtain ⟨tag, fs⟩ := p
+    have hnd' : (dkeys rest).Nodup := by simp [dkeys] at hnd ⊢; exact hnd.2
+    have htag : tag ∉ dkeys rest := by simp [dkeys] at hnd ⊢; exact hnd.1
+    obtain ⟨h1, h2⟩ := hL tag (by simp [dkeys])
+    unfold changeTags
+    cases hl : dget L tag with
+    | none => exact absurd hl h1
+    | some last =>
+      cases hg : dget lg tag with
+      | none => exact absurd hg h2
+      | some sid =>
+        simp only []
+        have hcur : ∀ f, curCell w lg tag f = dget (w.shares sid).data f := by
+          intro f; simp [curCell, hg]
+        have hLt : ∀ f, dgetD2 L tag f = dget last f := by intro f; simp [dgetD2, hl]
+        have hkf : ∀ f ∈ fs, dget last f ≠ none → dget (w.shares sid).data f ≠ none := by
+          intro f _ hn
+          rw [← hcur]; exact hk tag f (by simp [dkeys]) (by rw [hLt]; exact hn)
+        obtain ⟨c1, c2⟩ := changeFields_spec (w.shares sid).data last fs hkf
+        -- the rest of the loop sees the updated lasts only at other tags
+        have hother : ∀ t ∈ dkeys rest, ∀ f,
+            dgetD2 (dset L tag (changeFields (w.shares sid).data last fs).2) t f = dgetD2 L t f := by
+          intro t ht f
+          rw [dgetD2_dset]
+          have : t ≠ tag := fun h => htag (h ▸ ht)
+          simp [this]
+        obtain ⟨i1, i2, i3⟩ := ih (dset L tag (changeFields (w.shares sid).data last fs).2) hnd'
+          (by
+            intro t ht
+            have := hL t (by simp [dkeys] at ht ⊢; exact Or.inr ht)
+            refine ⟨?_, this.2⟩
+            rw [dget_dset]; split <;> simp [this.1])
+          (by
+            intro t f ht hn
+            rw [hother t ht f] at hn
+            exact hk t f (by simp [dkeys] at ht ⊢; exact Or.inr ht) hn)
+        refine ⟨i1, ?_, ?_⟩
+        · rw [i2, c1]
+          simp only [anyChanged, differs, List.any_cons]
+          congr 1
+          · apply any_congr_mem
+            intro f _
+            rw [hcur, hLt]
+          · apply any_congr_mem
+            intro q hq
+            obtain ⟨t, fs'⟩ := q
+            have ht : t ∈ dkeys rest := by simp [dkeys]; exact ⟨fs', hq⟩
+            apply any_congr_mem
+            intro f _
+            rw [hother t ht f]
+        · intro t f
+          rw [i3 t f]
+          by_cases ht : t = tag
+          · subst ht
+            have hr : dget rest t = none := dget_none_of_not_mem _ _ htag
+            simp only [changedAtB, hr, dget, if_true, Bool.false_eq_true, if_false]
+            rw [dgetD2_dset]
+            simp only [if_true, c2 f, hcur, hLt]
+            by_cases hm : f ∈ fs <;> simp [hm]
+          · have hd : dget ((tag, fs) :: rest) t = dget rest t := by
+              simp [dget, Ne.symm ht]
+            have e : dgetD2 (dset L tag (changeFields (w.shares sid).data last fs).2) t f = dgetD2 L t f := by
+              rw [dgetD2_dset]; simp [ht]
+            simp only [changedAtB, hd, e]
+
+theorem snapTag_get (data : Dict Val) (fs : List String) (f : String) :
+    dget (snapTag data fs) f = if f ∈ fs then dget data f else none := by
+  induction fs with
+  | nil => simp [snapTag, dget]
+  | cons g rest ih =>
+    unfold snapTag
+    cases hd : dget data g with
+    | none =>
+      simp only [ih]
+      by_cases hg : f = g
+      · subst hg; simp [hd]
+      · simp [hg]
+    | some v =>
+      simp only [dget_dset, ih]
+      by_cases hg : f = g
+      · subst hg; simp [hd]
+      · simp [hg]
+
+theorem lastsOf_eq_snapTag (data : Dict Val) (fs : List String) : lastsOf data fs = snapTag data fs := by
+  induction fs with
+  | nil => rfl
+  | cons g rest ih => unfold lastsOf snapTag; rw [ih]
+
+/-- what a record written now shows for field `f` of `tag` -/
+def shown (w : World) (lg : Dict Nat) (F : Dict (List String)) (tag f : String) : Option Val :=
+  match dget F tag with
+  | some fs => if f ∈ fs then curCell w lg tag f else none
+  | none => none
+
+theorem snapshot_get (w : World) (lg : Dict Nat) (F : Dict (List String)) (tag f : String) :
+    dgetD2 (snapshot w lg F) tag f = shown w lg F tag f := by
+  induction F with
+  | nil => simp [snapshot, dgetD2, dget, shown]
+  | cons p rest ih =>
+    obtain ⟨t, fs⟩ := p
+    unfold snapshot
+    by_cases ht : t = tag
+    · subst ht
+      cases hg : dget lg t with
+      | none =>
+        simp only [ih, shown, dget, if_true, curCell, hg]
+        have : dget rest t = none ∨ True := Or.inr trivial
+        cases hr : dget rest t with
+        | none => simp
+        | some fs' => simp
+      | some sid =>
+        simp only [dgetD2_dset, if_true, snapTag_get, shown, dget, curCell, hg]
+    · have hne : tag ≠ t := fun h => ht h.symm
+      cases hg : dget lg t with
+      | none => simp only [ih, shown, dget, ht, if_false]
+      | some sid =>
+        simp only [dgetD2_dset, hne, if_false, ih, shown, dget, ht]
+
+theorem buildLasts_get (w : World) (lg : Dict Nat) (F : Dict (List String))
+    (h : ∀ t ∈ dkeys F, dget lg t ≠ none) (tag f : String) :
+    dgetD2 (buildLasts w lg F).1 tag f = shown w lg F tag f := by
+  induction F with
+  | nil => simp [buildLasts, dgetD2, dget, shown]
+  | cons p rest ih =>
+    obtain ⟨t, fs⟩ := p
+    have h1 := h t (by simp [dkeys])
+    have h2 : ∀ t' ∈ dkeys rest, dget lg t' ≠ none :=
+      fun t' ht => h t' (by simp [dkeys] at ht ⊢; exact Or.inr ht)
+    unfold buildLasts
+    cases hg : dget lg t with
+    | none => exact absurd hg h1
+    | some sid =>
+      rcases hb : buildLasts w lg rest with ⟨ls, e⟩
+      have ih' := ih h2
+      rw [hb] at ih'
+      simp only at ih' ⊢
+      rw [dgetD2_dset]
+      by_cases ht : tag = t
+      · subst ht
+        simp only [if_true, lastsOf_eq_snapTag, snapTag_get, shown, dget, curCell, hg]
+      · have hne : t ≠ tag := fun h => ht h.symm
+        simp only [ht, if_false, ih', shown, dget, hne]
+
+theorem defaultFields_keep (w : World) (lg : Dict Nat) (F : Dict (List String)) (tag f : String)
+    (fs : List String) (h : dget F tag = some (f :: fs)) :
+    dget (defaultFields w lg F) tag = some (f :: fs) := by
+  induction lg generalizing F with
+  | nil => exact h
+  | cons q lrest ih =>
+    obtain ⟨t2, s2⟩ := q
+    unfold defaultFields
+    split
+    · exact ih _ h
+    · apply ih
+      rw [dget_dset]
+      split
+      · rename_i hnone heq
+        subst heq
+        exact absurd h (hnone f fs)
+      · exact h
+
+theorem apply_keeps_field (w : World) (o : WOp) (sid : Nat) (f : String)
+    (h : dget (w.shares sid).data f ≠ none) : dget ((w.apply o).shares sid).data f ≠ none := by
+  have hset : ∀ (d : Dict Val) (k : String) (v : Val), dget d f ≠ none → dget (dset d k v) f ≠ none := by
+    intro d k v hd; rw [dget_dset]; split <;> simp [hd]
+  cases o with
+  | setStamp t => exact h
+  | advance d => exact h
+  | write s2 k v =>
+    simp only [World.apply]
+    by_cases hs : sid = s2
+    · subst hs; rw [setShare_same]; exact hset _ _ _ h
+    · rw [setShare_other _ _ _ _ hs]; exact h
+  | poke s2 k v =>
+    simp only [World.apply]
+    by_cases hs : sid = s2
+    · subst hs; rw [setShare_same]; exact hset _ _ _ h
+    · rw [setShare_other _ _ _ _ hs]; exact h
+  | append s2 k a =>
+    simp only [World.apply]
+    split
+    · by_cases hs : sid = s2
+      · subst hs; rw [setShare_same]; exact hset _ _ _ h
+      · rw [setShare_other _ _ _ _ hs]; exact h
+    · exact h
+  | push s2 e =>
+    simp only [World.apply]
+    by_cases hs : sid = s2
+    · subst hs; rw [setShare_same]; exact h
+    · rw [setShare_other _ _ _ _ hs]; exact h
+
+/-! ## the ideal logger's own steps (update / change rules), from the facts it needs -/
+
+theorem log_eq_fmt (w : World) (l : Log) (hc : cfgOk l = true) (ho : l.isOpen = true)
+    (ht : l.timeFmt = true) (hf : l.formats = l.fields) : l.log w = (l.logged w, none) :=
+  log_ok w l ho ht (by
+    intro tag htag
+    rw [hf, dget_ne_none_iff_mem, cfgOk_keys hc]; exact htag)
+
+/-- one run of the ideal update / change log -/
+def Ideal.run1 (j : Ideal) : Ideal := if j.wants then j.afterLog else j
+
+theorem ideal_logRun_eq (j : Ideal) (hr : j.s.log.rule = .update ∨ j.s.log.rule = .change)
+    (hc : cfgOk j.s.log = true) (ho : j.s.log.isOpen = true) (ht : j.s.log.timeFmt = true)
+    (hf : j.s.log.formats = j.s.log.fields) : j.logRun = (j.run1, none) := by
+  unfold Ideal.logRun Ideal.run1
+  rcases hr with hr | hr <;> simp only [hr] <;> split <;>
+    simp [log_eq_fmt j.s.world j.s.log hc ho ht hf, Ideal.afterLog]
+
+/-- facts about the files that the ideal logger's steps rely on (no `.lasts` involved) -/
+structure InvF (s : S1) : Prop where
+  alive : s.alive = true
+  cfg : cfgOk s.log = true
+  opened : openSt s.status = true → s.log.isOpen = true ∧ s.log.timeFmt = true ∧ s.log.formats = s.log.fields
+
+theorem Inv.toF {s : S1} (h : Inv s) : InvF s :=
+  ⟨h.alive, h.cfg, fun ho => ⟨h.opened ho, (h.prep (Or.inl ho)).time, (h.prep (Or.inl ho)).fmts⟩⟩
+
+theorem startLog_factsF (s : S1) (hi : InvF s) :
+    cfgOk (startLog s) = true ∧ (startLog s).isOpen = true ∧ (startLog s).timeFmt = true ∧
+    (startLog s).formats = (startLog s).fields ∧ s.log.reopen.prepare s.world = (startLog s, none) := by
+  have hro := reopen_open s.log
+  have hrc : cfgOk s.log.reopen = true := by rw [reopen_cfg]; exact hi.cfg
+  have hpe := prepare_eq s.world s.log.reopen hrc hro
+  refine ⟨prepare_cfg s.world s.log.reopen hrc hro, ?_, ?_, ?_, ?_⟩
+  · unfold startLog; rw [hpe]; exact hro
+  · unfold startLog; rw [hpe]
+  · unfold startLog; rw [hpe]
+  · unfold startLog; rw [hpe]
+
+theorem ideal_send_shape (i : Ideal) (c : Ctl) (hi : InvF i.s)
+    (hr : i.s.log.rule = .update ∨ i.s.log.rule = .change) (hc : ctlOk i.s.status c = true) :
+    (i.send c).1 =
+      match c with
+      | .run => { i.run1 with s := { i.run1.s with status := .running } }
+      | .ready => { i with s := { i.s with status := .readied } }
+      | .start =>
+        let j : Ideal := ({ i with s := { i.s with log := startLog i.s } } : Ideal).run1
+        { j with s := { j.s with status := .started } }
+      | .stop =>
+        if i.s.status = .stopped then i
+        else { i.run1 with s := { i.run1.s with log := i.run1.s.log.close, status := .stopped } }
+      | .abort => { i with s := { i.s with log := i.s.log.close, status := .aborted } } := by
+  have hna : (!i.s.alive) = false := by simp [hi.alive]
+  cases c with
+  | ready => simp only [Ideal.send, hna, Bool.false_eq_true, if_false]
+  | abort => simp only [Ideal.send, hna, Bool.false_eq_true, if_false]
+  | run =>
+    have ho : openSt i.s.status = true := hc
+    obtain ⟨o1, o2, o3⟩ := hi.opened ho
+    simp only [Ideal.send, hna, Bool.false_eq_true, if_false, ideal_logRun_eq i hr hi.cfg o1 o2 o3]
+  | start =>
+    obtain ⟨f1, f2, f3, f4, f5⟩ := startLog_factsF i.s hi
+    have hrs : (startLog i.s).rule = i.s.log.rule := by
+      unfold startLog
+      rw [prepare_eq i.s.world i.s.log.reopen (by rw [reopen_cfg]; exact hi.cfg) (reopen_open _)]
+      exact (reopen_same i.s.log).2.2.2.2.2.1
+    simp only [Ideal.send, hna, Bool.false_eq_true, if_false, f5]
+    rw [ideal_logRun_eq ({ i with s := { i.s with log := startLog i.s } } : Ideal)
+      (by simp only [hrs]; exact hr) f1 f2 f3 f4]
+  | stop =>
+    simp only [Ideal.send, hna, Bool.false_eq_true, if_false]
+    by_cases hst : i.s.status = .stopped
+    · simp only [hst, if_true]
+    · have ho : openSt i.s.status = true := by
+        simp only [ctlOk, Bool.or_eq_true, beq_iff_eq] at hc
+        rcases hc with h | h
+        · exact h
+        · exact absurd h hst
+      obtain ⟨o1, o2, o3⟩ := hi.opened ho
+      simp only [hst, if_false, ideal_logRun_eq i hr hi.cfg o1 o2 o3]
+
+/-! ## change rule: the code against the ideal logger -/
+
+/-- `a` is `b` except for `.lasts` -/
+def ButLasts (a b : Log) : Prop := ∃ ls, a = { b with lasts := ls }
+
+theorem ButLasts.refl (a : Log) : ButLasts a a := ⟨a.lasts, rfl⟩
+
+theorem ButLasts.logged {a b : Log} (h : ButLasts a b) (w : World) : ButLasts (a.logged w) (b.logged w) := by
+  obtain ⟨ls, rfl⟩ := h; exact ⟨ls, rfl⟩
+
+theorem ButLasts.close {a b : Log} (h : ButLasts a b) : ButLasts a.close b.close := by
+  obtain ⟨ls, rfl⟩ := h; exact ⟨ls, rfl⟩
+
+theorem ButLasts.setLasts {a b : Log} (h : ButLasts a b) (x : Dict (Dict Val)) :
+    ButLasts a { b with lasts := x } := by
+  obtain ⟨ls, rfl⟩ := h; exact ⟨ls, rfl⟩
+
+theorem ButLasts.reopen {a b : Log} (h : ButLasts a b) : ButLasts a.reopen b.reopen := by
+  obtain ⟨ls, rfl⟩ := h
+  unfold Log.reopen
+  simp only []
+  split <;> exact ⟨ls, rfl⟩
+
+theorem prepFields_butLasts {a b : Log} (h : ButLasts a b) (w : World) : prepFields w a = prepFields w b := by
+  obtain ⟨ls, rfl⟩ := h; rfl
+
+theorem ButLasts.prepare {a b : Log} (h : ButLasts a b) (w : World) (hc : cfgOk b = true)
+    (ho : b.isOpen = true) : ButLasts (a.prepare w).1 (b.prepare w).1 := by
+  have hpf := prepFields_butLasts h w
+  obtain ⟨ls, rfl⟩ := h
+  rw [prepare_eq w b hc ho, prepare_eq w _ (show cfgOk ({ b with lasts := ls } : Log) = true from hc) ho]
+  simp only [hpf]
+  exact ⟨_, rfl⟩
+
+theorem ButLasts.facts {a b : Log} (h : ButLasts a b) :
+    a.rule = b.rule ∧ a.loggees = b.loggees ∧ a.fields = b.fields ∧ a.formats = b.formats ∧
+    a.timeFmt = b.timeFmt ∧ a.isOpen = b.isOpen ∧ a.stamp = b.stamp ∧ a.disk = b.disk ∧
+    cfgOk a = cfgOk b := by
+  obtain ⟨ls, rfl⟩ := h
+  exact ⟨rfl, rfl, rfl, rfl, rfl, rfl, rfl, rfl, rfl⟩
+
+theorem mem_of_dget {α : Type} (d : Dict α) (k : String) (v : α) (h : dget d k = some v) : (k, v) ∈ d := by
+  induction d with
+  | nil => simp [dget] at h
+  | cons p rest ih =>
+    obtain ⟨k0, x⟩ := p
+    by_cases h0 : k0 = k
+    · subst h0; simp [dget] at h; simp [h]
+    · simp [dget, h0] at h; exact List.mem_cons_of_mem _ (ih h)
+
+/-- against cells equal to the last record's, `differs` gives the same answer -/
+theorem differs_congr (w : World) (lg : Dict Nat) (L J : Dict (Dict Val)) (F : Dict (List String))
+    (h : ∀ tag f, cellNe (dgetD2 L tag f) (dgetD2 J tag f) = false) :
+    differs w lg L F = differs w lg J F := by
+  unfold differs
+  apply any_congr_mem
+  intro p _
+  obtain ⟨tag, fs⟩ := p
+  apply any_congr_mem
+  intro f _
+  exact cellNe_congr _ _ _ (h tag f)
+
+theorem changedAtB_false_of_not_differs (w : World) (lg : Dict Nat) (L : Dict (Dict Val))
+    (F : Dict (List String)) (h : differs w lg L F = false) (tag f : String) :
+    changedAtB w lg F L tag f = false := by
+  unfold changedAtB
+  cases hF : dget F tag with
+  | none => rfl
+  | some fs =>
+    simp only []
+    by_cases hm : f ∈ fs
+    · have := mem_of_dget F tag fs hF
+      unfold differs at h
+      rw [List.any_eq_false] at h
+      have h1 := h (tag, fs) this
+      simp only [Bool.not_eq_true] at h1
+      rw [List.any_eq_false] at h1
+      have h2 := h1 f hm
+      simp [hm, h2]
+    · simp [hm]
+
+/-- ghost invariant of the change rule: `.lasts` agrees (up to Python `==`) with the values in the
+last record (`J`), holds only logged fields, and only fields the shares still have -/
+structure GhostC (lc : Log) (w : World) (logged : Bool) (J : Dict (Dict Val)) : Prop where
+  logged : logged = true ↔ lc.stamp ≠ none
+  g2 : lc.stamp ≠ none → ∀ tag f, cellNe (dgetD2 lc.lasts tag f) (dgetD2 J tag f) = false
+  g3 : ∀ tag f, dgetD2 lc.lasts tag f ≠ none → ∃ fs, dget lc.fields tag = some fs ∧ f ∈ fs
+  g4 : ∀ tag f, dgetD2 lc.lasts tag f ≠ none → curCell w lc.loggees tag f ≠ none
+
+theorem shown_ne_none {w : World} {lg : Dict Nat} {F : Dict (List String)} {tag f : String}
+    (h : shown w lg F tag f ≠ none) :
+    (∃ fs, dget F tag = some fs ∧ f ∈ fs) ∧ curCell w lg tag f ≠ none := by
+  unfold shown at h
+  cases hF : dget F tag with
+  | none => simp [hF] at h
+  | some fs =>
+    simp only [hF] at h
+    by_cases hm : f ∈ fs
+    · simp only [hm, if_true] at h
+      exact ⟨⟨fs, rfl, hm⟩, h⟩
+    · simp [hm] at h
+
+theorem C_run (j : Ideal) (lc : Log) (w : World) (hjw : j.s.world = w)
+    (hb : ButLasts j.s.log lc) (hr : lc.rule = .change)
+    (hc : cfgOk lc = true) (ho : lc.isOpen = true) (hp : Prepared lc)
+    (hnd : (dkeys lc.loggees).Nodup) (hw : ∃ t, w.stamp = some t)
+    (hg : GhostC lc w j.logged j.last)
+    (p0 : lc.stamp = none → ∀ tag f, dgetD2 lc.lasts tag f = shown w lc.loggees lc.fields tag f) :
+    (lc.act w).1 = w ∧ (lc.act w).2.2 = none ∧
+    ButLasts j.run1.s.log (lc.act w).2.1 ∧
+    j.run1.s.world = w ∧ j.run1.s.status = j.s.status ∧ j.run1.s.alive = j.s.alive ∧
+    GhostC (lc.act w).2.1 w j.run1.logged j.run1.last ∧
+    (lc.act w).2.1.stamp ≠ none := by
+  subst hjw
+  obtain ⟨t, hwt⟩ := hw
+  obtain ⟨e1, e2, e3, _, _, _, e7, _, _⟩ := hb.facts
+  have hjr : j.s.log.rule = .change := e1.trans hr
+  rw [act_change j.s.world lc hr hc ho hp]
+  by_cases hs : lc.stamp = none
+  · -- first record
+    have hnl : j.logged = false := by
+      cases h : j.logged with
+      | false => rfl
+      | true => exact absurd hs (hg.logged.1 h)
+    have hwants : j.wants = true := by simp [Ideal.wants, hjr, hnl]
+    simp only [hs, if_true, Ideal.run1, hwants, Ideal.afterLog]
+    refine ⟨trivial, trivial, hb.logged _, trivial, trivial, trivial, ?_, by simp [Log.logged, hwt]⟩
+    refine ⟨by simp [Log.logged, hwt], ?_, hg.g3, hg.g4⟩
+    intro _ tag f
+    show cellNe (dgetD2 lc.lasts tag f) (dgetD2 (snapshot j.s.world j.s.log.loggees j.s.log.fields) tag f) = false
+    rw [e2, e3, snapshot_get, p0 hs tag f]
+    exact cellNe_self _
+  · -- later runs
+    have hlg : j.logged = true := hg.logged.2 hs
+    have hk : dkeys lc.fields = dkeys lc.loggees := cfgOk_keys hc
+    obtain ⟨s1, s2, s3⟩ := changeTags_spec j.s.world lc.loggees lc.fields lc.lasts (by rw [hk]; exact hnd)
+      (by
+        intro tg htg
+        exact ⟨hp.lasts hr tg htg, by rw [dget_ne_none_iff_mem, ← hk]; exact htg⟩)
+      (by intro tg f _ hn; exact hg.g4 tg f hn)
+    have hdec : j.wants = (changeTags j.s.world lc.loggees lc.lasts lc.fields).1 := by
+      simp only [Ideal.wants, hjr, hlg, Bool.not_true, Bool.false_or]
+      rw [s2, e2, e3]
+      exact (differs_congr _ _ _ _ _ (hg.g2 hs)).symm
+    simp only [hs, if_false]
+    cases hch : (changeTags j.s.world lc.loggees lc.lasts lc.fields).1 with
+    | true =>
+      have hwants : j.wants = true := by rw [hdec, hch]
+      simp only [if_true, Ideal.run1, hwants, Ideal.afterLog]
+      refine ⟨trivial, trivial, (hb.setLasts _).logged _, trivial, trivial, trivial, ?_,
+        by simp [Log.logged, hwt]⟩
+      refine ⟨by simp [Log.logged, hwt], ?_, ?_, ?_⟩
+      · intro _ tag f
+        show cellNe (dgetD2 (changeTags j.s.world lc.loggees lc.lasts lc.fields).2.1 tag f)
+          (dgetD2 (snapshot j.s.world j.s.log.loggees j.s.log.fields) tag f) = false
+        rw [e2, e3, snapshot_get, s3 tag f]
+        by_cases hcb : changedAtB j.s.world lc.loggees lc.fields lc.lasts tag f = true
+        · simp only [hcb, if_true]
+          unfold changedAtB at hcb
+          cases hF : dget lc.fields tag with
+          | none => simp [hF] at hcb
+          | some fs =>
+            simp only [hF, Bool.and_eq_true, decide_eq_true_eq] at hcb
+            simp only [shown, hF, hcb.1, if_true]
+            exact cellNe_self _
+        · simp only [hcb]
+          cases hF : dget lc.fields tag with
+          | none =>
+            have : dgetD2 lc.lasts tag f = none := by
+              cases hd : dgetD2 lc.lasts tag f with
+              | none => rfl
+              | some v =>
+                obtain ⟨fs, h1, _⟩ := hg.g3 tag f (by rw [hd]; simp)
+                rw [hF] at h1; cases h1
+            simp [shown, hF, this, cellNe]
+          | some fs =>
+            by_cases hm : f ∈ fs
+            · have hne : cellNe (curCell j.s.world lc.loggees tag f) (dgetD2 lc.lasts tag f) = false := by
+                simp only [changedAtB, hF, hm, decide_true, Bool.true_and, Bool.not_eq_true] at hcb
+                exact hcb
+              simp only [shown, hF, hm, if_true]
+              rw [cellNe_symm]; exact hne
+            · have : dgetD2 lc.lasts tag f = none := by
+                cases hd : dgetD2 lc.lasts tag f with
+                | none => rfl
+                | some v =>
+                  obtain ⟨fs', h1, h2⟩ := hg.g3 tag f (by rw [hd]; simp)
+                  rw [hF] at h1
+                  have := Option.some.inj h1
+                  subst this
+                  exact absurd h2 hm
+              simp [shown, hF, hm, this, cellNe]
+      · intro tag f hn
+        show ∃ fs, dget lc.fields tag = some fs ∧ f ∈ fs
+        have hn' : dgetD2 (changeTags j.s.world lc.loggees lc.lasts lc.fields).2.1 tag f ≠ none := hn
+        rw [s3 tag f] at hn'
+        by_cases hcb : changedAtB j.s.world lc.loggees lc.fields lc.lasts tag f = true
+        · unfold changedAtB at hcb
+          cases hF : dget lc.fields tag with
+          | none => simp [hF] at hcb
+          | some fs =>
+            simp only [hF, Bool.and_eq_true, decide_eq_true_eq] at hcb
+            exact ⟨fs, rfl, hcb.1⟩
+        · simp only [hcb, if_false] at hn'
+          exact hg.g3 tag f hn'
+      · intro tag f hn
+        show curCell j.s.world lc.loggees tag f ≠ none
+        have hn' : dgetD2 (changeTags j.s.world lc.loggees lc.lasts lc.fields).2.1 tag f ≠ none := hn
+        rw [s3 tag f] at hn'
+        by_cases hcb : changedAtB j.s.world lc.loggees lc.fields lc.lasts tag f = true
+        · simp only [hcb, if_true] at hn'; exact hn'
+        · simp only [hcb, if_false] at hn'
+          exact hg.g4 tag f hn'
+    | false =>
+      have hwants : j.wants = false := by rw [hdec, hch]
+      have hsame : ∀ tag f, dgetD2 (changeTags j.s.world lc.loggees lc.lasts lc.fields).2.1 tag f =
+          dgetD2 lc.lasts tag f := by
+        intro tag f
+        rw [s3 tag f, changedAtB_false_of_not_differs _ _ _ _ (s2.symm.trans hch)]
+        simp
+      simp only [Bool.false_eq_true, if_false, Ideal.run1, hwants]
+      refine ⟨trivial, trivial, hb.setLasts _, trivial, trivial, trivial, ?_, hs⟩
+      refine ⟨hg.logged, ?_, ?_, ?_⟩
+      · intro h tag f
+        show cellNe (dgetD2 (changeTags j.s.world lc.loggees lc.lasts lc.fields).2.1 tag f) _ = false
+        rw [hsame]; exact hg.g2 hs tag f
+      · intro tag f hn
+        have hn' : dgetD2 (changeTags j.s.world lc.loggees lc.lasts lc.fields).2.1 tag f ≠ none := hn
+        rw [hsame] at hn'
+        exact hg.g3 tag f hn'
+      · intro tag f hn
+        have hn' : dgetD2 (changeTags j.s.world lc.loggees lc.lasts lc.fields).2.1 tag f ≠ none := hn
+        rw [hsame] at hn'
+        exact hg.g4 tag f hn'
+
+theorem startLog_ghost (c : S1) (hi : Inv c) (hr : c.log.rule = .change) (lgd : Bool) (J : Dict (Dict Val))
+    (hg : GhostC c.log c.world lgd J) :
+    GhostC (startLog c) c.world lgd J ∧
+    ((startLog c).stamp = none → ∀ tag f, dgetD2 (startLog c).lasts tag f =
+        shown c.world (startLog c).loggees (startLog c).fields tag f) := by
+  obtain ⟨r1, r2, r3, _, _, r6, r7⟩ := reopen_same c.log
+  have hk := cfgOk_keys hi.cfg
+  have hrk : dkeys c.log.reopen.fields = dkeys c.log.reopen.loggees := by rw [r3, r7]; exact hk
+  have hpk := prepFields_keys c.world c.log.reopen hrk
+  have hall : ∀ t ∈ dkeys (prepFields c.world c.log.reopen), dget c.log.reopen.loggees t ≠ none := by
+    intro t ht; rw [hpk, hrk] at ht; exact (dget_ne_none_iff_mem _ _).2 ht
+  have hbl := buildLasts_get c.world c.log.reopen.loggees (prepFields c.world c.log.reopen) hall
+  have hpf : prepFields c.world c.log.reopen = defaultFields c.world c.log.loggees c.log.fields := by
+    simp [prepFields, r6, hr, r7, r3]
+  have hst : (startLog c).stamp = c.log.stamp := startLog_stamp c hi
+  have hlasts : (startLog c).lasts = prepLasts c.world c.log.reopen := by rw [startLog_eq c hi]
+  have hfields : (startLog c).fields = prepFields c.world c.log.reopen := by rw [startLog_eq c hi]
+  have hlg : (startLog c).loggees = c.log.reopen.loggees := by rw [startLog_eq c hi]
+  by_cases hre : c.log.reopen.rule = .change ∧ (c.log.reopen.stamp = none ∨ c.log.reopen.lasts.isEmpty = true)
+  · -- `.lasts` rebuilt from the shares
+    have hL : ∀ tag f, dgetD2 (startLog c).lasts tag f =
+        shown c.world (startLog c).loggees (startLog c).fields tag f := by
+      intro tag f
+      rw [hlasts, hfields, hlg]
+      simp only [prepLasts, hre, and_self, if_true]
+      exact hbl tag f
+    refine ⟨⟨by rw [hst]; exact hg.logged, ?_, ?_, ?_⟩, fun _ => hL⟩
+    · intro hsn tag f
+      rw [hst] at hsn
+      -- already logged, so `.lasts` was empty: no logged tag at all
+      have hemp : c.log.lasts = [] := by
+        rcases hre.2 with h | h
+        · rw [r1] at h; exact absurd h hsn
+        · rw [r2] at h; simpa using h
+      have hJ : dgetD2 J tag f = none := by
+        have := hg.g2 hsn tag f
+        rw [hemp] at this
+        have h0 : dgetD2 ([] : Dict (Dict Val)) tag f = none := rfl
+        rw [h0] at this
+        cases hj : dgetD2 J tag f with
+        | none => rfl
+        | some v => rw [hj] at this; simp [cellNe] at this
+      have hprep := hi.prep (Or.inr hsn)
+      rw [hL tag f, hJ]
+      unfold shown
+      cases hF : dget (startLog c).fields tag with
+      | none => rfl
+      | some fs =>
+        exfalso
+        have hmem : tag ∈ dkeys c.log.fields := by
+          have : tag ∈ dkeys (startLog c).fields := (dget_ne_none_iff_mem _ _).1 (by rw [hF]; simp)
+          rw [hfields, hpk, r3] at this; exact this
+        have := hprep.lasts hr tag hmem
+        rw [hemp] at this
+        simp [dget] at this
+    · intro tag f hn
+      rw [hL tag f] at hn
+      exact (shown_ne_none hn).1
+    · intro tag f hn
+      rw [hL tag f] at hn
+      exact (shown_ne_none hn).2
+  · -- restart: `.lasts` kept
+    have hkeep : (startLog c).lasts = c.log.lasts := by
+      rw [hlasts]; simp only [prepLasts, hre, if_false]; exact r2
+    have hsn : c.log.stamp ≠ none := by
+      intro h; exact hre ⟨r6.trans hr, Or.inl (r1.trans h)⟩
+    refine ⟨⟨by rw [hst]; exact hg.logged, ?_, ?_, ?_⟩, fun h => absurd (hst ▸ h) hsn⟩
+    · intro _ tag f; rw [hkeep]; exact hg.g2 hsn tag f
+    · intro tag f hn
+      rw [hkeep] at hn
+      obtain ⟨fs, h1, h2⟩ := hg.g3 tag f hn
+      cases fs with
+      | nil => simp at h2
+      | cons x xs =>
+        refine ⟨x :: xs, ?_, h2⟩
+        rw [hfields, hpf]
+        exact defaultFields_keep _ _ _ _ _ _ h1
+    · intro tag f hn
+      rw [hkeep] at hn
+      rw [hlg, r7]
+      exact hg.g4 tag f hn
+
+/-- the code state `c` and the ideal logger `i` side by side (change rule) -/
+structure RelC (c : S1) (i : Ideal) : Prop where
+  world : i.s.world = c.world
+  status : i.s.status = c.status
+  alive : i.s.alive = c.alive
+  log : ButLasts i.s.log c.log
+  ghost : GhostC c.log c.world i.logged i.last
+  started : openSt c.status = true → c.log.stamp ≠ none
+  now : ∃ t, c.world.stamp = some t
+
+theorem RelC.invF {c : S1} {i : Ideal} (h : RelC c i) (hi : Inv c) : InvF i.s := by
+  obtain ⟨_, _, e3, e4, e5, e6, _, _, e9⟩ := h.log.facts
+  refine ⟨by rw [h.alive]; exact hi.alive, by rw [e9]; exact hi.cfg, ?_⟩
+  intro ho
+  rw [h.status] at ho
+  have hp := hi.prep (Or.inl ho)
+  exact ⟨by rw [e6]; exact hi.opened ho, by rw [e5]; exact hp.time, by rw [e4, e3]; exact hp.fmts⟩
+
+theorem GhostC.close {lc : Log} {w : World} {b : Bool} {J : Dict (Dict Val)} (h : GhostC lc w b J) :
+    GhostC lc.close w b J := ⟨h.logged, h.g2, h.g3, h.g4⟩
+
+theorem startLog_butLasts {c : S1} {i : Ideal} (h : RelC c i) (hi : Inv c) :
+    ButLasts (startLog i.s) (startLog c) := by
+  unfold startLog
+  rw [h.world]
+  exact h.log.reopen.prepare c.world (by rw [reopen_cfg]; exact hi.cfg) (reopen_open _)
+
+theorem C_step (c : S1) (i : Ideal) (op : Op) (h : RelC c i) (hi : Inv c) (hr : c.log.rule = .change)
+    (hnd : (dkeys c.log.loggees).Nodup)
+    (hok : ∀ c', op = .ctl c' → ctlOk c.status c' = true)
+    (hst : ∃ t', opStamp c.world.stamp op = some t') :
+    RelC (c.step op).1 (i.step op).1 := by
+  cases op with
+  | w o =>
+    obtain ⟨t', ht'⟩ := hst
+    refine ⟨?_, h.status, h.alive, h.log, ⟨h.ghost.logged, h.ghost.g2, h.ghost.g3, ?_⟩, h.started,
+      ⟨t', by rw [← ht']; exact apply_stamp c.world o⟩⟩
+    · show i.s.world.apply o = c.world.apply o
+      rw [h.world]
+    · intro tag f hn
+      have := h.ghost.g4 tag f hn
+      show curCell (c.world.apply o) c.log.loggees tag f ≠ none
+      unfold curCell at this ⊢
+      cases hg : dget c.log.loggees tag with
+      | none => simp [hg] at this
+      | some sid =>
+        simp only [hg] at this ⊢
+        exact apply_keeps_field _ _ _ _ this
+  | ctl c' =>
+    have hc := hok c' rfl
+    have hF := h.invF hi
+    obtain ⟨e1, e2, e3, _, _, _, e7, _, _⟩ := h.log.facts
+    have hci : ctlOk i.s.status c' = true := by rw [h.status]; exact hc
+    simp only [S1.step, Ideal.step]
+    rw [send_shape c c' hi hc, ideal_send_shape i c' hF (Or.inr (e1.trans hr)) hci]
+    cases c' with
+    | ready =>
+      exact ⟨h.world, rfl, h.alive, h.log, h.ghost, by simp [openSt], h.now⟩
+    | abort =>
+      exact ⟨h.world, rfl, h.alive, h.log.close, h.ghost.close, by simp [openSt], h.now⟩
+    | run =>
+      have ho : openSt c.status = true := hc
+      obtain ⟨q1, _, q3, q4, q5, q6, q7, q8⟩ := C_run i c.log c.world h.world h.log hr hi.cfg (hi.opened ho)
+        (hi.prep (Or.inl ho)) hnd h.now h.ghost (fun hs => absurd hs (h.started ho))
+      simp only []
+      exact ⟨by rw [q1]; exact q4, rfl, q6.trans h.alive, q3, by rw [q1]; exact q7,
+        fun _ => q8, by rw [q1]; exact h.now⟩
+    | stop =>
+      simp only []
+      by_cases hs : c.status = .stopped
+      · have hs' : i.s.status = .stopped := h.status.trans hs
+        simp only [hs, hs', if_true]
+        exact h
+      · have hs' : i.s.status ≠ .stopped := fun e => hs (h.status.symm.trans e)
+        have ho : openSt c.status = true := by
+          simp only [ctlOk, Bool.or_eq_true, beq_iff_eq] at hc
+          rcases hc with x | x
+          · exact x
+          · exact absurd x hs
+        obtain ⟨q1, _, q3, q4, q5, q6, q7, q8⟩ := C_run i c.log c.world h.world h.log hr hi.cfg
+          (hi.opened ho) (hi.prep (Or.inl ho)) hnd h.now h.ghost (fun hsn => absurd hsn (h.started ho))
+        simp only [hs, hs', if_false]
+        exact ⟨by rw [q1]; exact q4, rfl, q6.trans h.alive, q3.close, by rw [q1]; exact q7.close,
+          by simp [openSt], by rw [q1]; exact h.now⟩
+    | start =>
+      obtain ⟨f1, f2, f3, _⟩ := startLog_facts c hi
+      have hb := startLog_butLasts h hi
+      obtain ⟨g1, g2⟩ := startLog_ghost c hi hr i.logged i.last h.ghost
+      have hrs := (startLog_rule c hi).trans hr
+      have hls := startLog_loggees c hi
+      obtain ⟨q1, _, q3, q4, q5, q6, q7, q8⟩ :=
+        C_run ({ i with s := { i.s with log := startLog i.s } } : Ideal) (startLog c) c.world h.world
+          hb hrs f1 f2 f3 (by rw [hls]; exact hnd) h.now g1 g2
+      simp only []
+      exact ⟨by rw [q1]; exact q4, rfl, q6.trans h.alive, q3, by rw [q1]; exact q7,
+        fun _ => q8, by rw [q1]; exact h.now⟩
+
+theorem C_exec (c : S1) (i : Ideal) (h : List Op) (hrel : RelC c i) (hi : Inv c) (hr : c.log.rule = .change)
+    (hnd : (dkeys c.log.loggees).Nodup) (hp : proto c.status h = true)
+    (ht : timed c.world.stamp h = true) : RelC (c.exec h) (i.exec h) := by
+  induction h generalizing c i with
+  | nil => exact hrel
+  | cons op rest ih =>
+    obtain ⟨hok, hi', hp'⟩ := thread c op rest hi hp
+    obtain ⟨t, t', hst0, hst1, _, ht'⟩ := timed_cons _ _ _ ht
+    have hws := step_world_stamp c op hi hok
+    rw [hst1] at hws
+    have hsr := step_rule c op hi hok
+    simp only [S1.exec, Ideal.exec]
+    exact ih _ _ (C_step c i op hrel hi hr hnd hok ⟨t', hst1⟩) hi' (hsr.1.trans hr)
+      (by rw [hsr.2]; exact hnd) hp' (by rw [hws]; exact ht')
+
+theorem RelC_fresh (s : S1) (hf : Fresh s) (hl : s.log.lasts = []) (hw : ∃ t, s.world.stamp = some t) :
+    RelC s (Ideal.ofS1 s) := by
+  refine ⟨rfl, rfl, rfl, ButLasts.refl _, ⟨by simp [Ideal.ofS1, hf.stamp], ?_, ?_, ?_⟩, ?_, hw⟩
+  · intro h; exact absurd hf.stamp h
+  · intro tag f hn; rw [hl] at hn; exact absurd rfl hn
+  · intro tag f hn; rw [hl] at hn; exact absurd rfl hn
+  · rw [hf.status]; simp [openSt]
+
+/-! ## streak and deck: exact effect of a run -/
+
+theorem act_deck (w : World) (l : Log) (hr : l.rule = .deck) (ho : l.isOpen = true) (hp : Prepared l)
+    (tag : String) (sid : Nat) (rest : Dict Nat) (fs : List String)
+    (hl : l.loggees = (tag, sid) :: rest) (hf : dget l.fields tag = some fs) :
+    l.act w =
+      if (w.shares sid).deck = [] then (w, { l with stamp := w.stamp }, none)
+      else (w.setShare sid { w.shares sid with deck := [] },
+            { l with stamp := w.stamp,
+                     disk := some (fileLines l.disk ++ (deckRecList w.stamp fs (w.shares sid).deck).map .record) },
+            none) := by
+  have hact : l.act w = l.logDeck w := by simp [Log.act, hr]
+  have hfm : dget l.formats tag = some fs := by rw [hp.fmts]; exact hf
+  rw [hact]
+  unfold Log.logDeck
+  simp only []
+  split
+  · rename_i hnil; rw [hl] at hnil; cases hnil
+  · rename_i tag' sid' rest' hl'
+    rw [hl] at hl'
+    obtain ⟨h1, h2⟩ := List.cons.inj hl'
+    obtain ⟨rfl, rfl⟩ := Prod.mk.inj h1
+    split
+    · rename_i hnone; rw [hf] at hnone; cases hnone
+    · rename_i fs' hf'
+      rw [hf] at hf'
+      obtain rfl := Option.some.inj hf'
+      split
+      · rename_i hd; rw [if_pos hd]
+      · rename_i d hd
+        have hne : ¬ (w.shares sid).deck = [] := fun h => hd h
+        simp only [if_neg hne, hfm]
+        split
+        · rw [write_open ({ l with stamp := w.stamp } : Log) _ ho]
+          simp [deckRecs_eq]
+        · rename_i hfalse
+          exfalso
+          apply hfalse
+          rw [List.all_eq_true]
+          intro x _
+          cases x with
+          | other a => rfl
+          | map m =>
+            simp only [hp.time, Bool.true_and, List.all_eq_true]
+            intro f hfm'
+            simp [hfm']
+
+theorem act_streak (w : World) (l : Log) (hr : l.rule = .streak) (ho : l.isOpen = true) (hp : Prepared l)
+    (tag : String) (sid : Nat) (rest : Dict Nat) (q : String) (qs : List String) (items : List Atom)
+    (hl : l.loggees = (tag, sid) :: rest) (hf : dget l.fields tag = some (q :: qs))
+    (hq : dget (w.shares sid).data q = some (.list items)) :
+    l.act w =
+      (w.setShare sid { w.shares sid with data := dset (w.shares sid).data q (.list []) },
+       { l with stamp := w.stamp,
+                disk := some (fileLines l.disk ++
+                  (items.map fun a => (⟨w.stamp, [some (.atom a)]⟩ : Rec)).map .record) },
+       none) := by
+  have hact : l.act w = l.logStreak w := by simp [Log.act, hr]
+  have hfm : dget l.formats tag = some (q :: qs) := by rw [hp.fmts]; exact hf
+  rw [hact]
+  unfold Log.logStreak
+  simp only []
+  split
+  · rename_i hnil; rw [hl] at hnil; cases hnil
+  · rename_i tag' sid' rest' hl'
+    rw [hl] at hl'
+    obtain ⟨h1, h2⟩ := List.cons.inj hl'
+    obtain ⟨rfl, rfl⟩ := Prod.mk.inj h1
+    split
+    · rename_i hd; rw [hd] at hq; simp [dget] at hq
+    · rename_i k0 v0 drest hd
+      split
+      · rename_i hnone; rw [hf] at hnone; cases hnone
+      · rename_i fs' hf'
+        rw [hf] at hf'
+        obtain rfl := Option.some.inj hf'
+        simp only [hfm, List.mem_cons, true_or, if_true]
+        rw [hq]
+        simp only [hp.time, Bool.not_true, Bool.false_and, Bool.false_eq_true, if_false]
+        rw [write_open ({ l with timeFmt := true, stamp := w.stamp } : Log) _ ho]
+        simp [streakRecs_eq]
+
+/-! ## deck: every pushed mapping is logged once, in order -/
+
+theorem entryCells_append (fs : List String) (a b : List Entry) :
+    entryCells fs (a ++ b) = entryCells fs a ++ entryCells fs b := by
+  induction a with
+  | nil => rfl
+  | cons e r ih => cases e <;> simp [entryCells, ih]
+
+theorem deckRecList_cells (st : Option Int) (fs : List String) (d : List Entry) :
+    (deckRecList st fs d).map (·.cells) = entryCells fs d := by
+  induction d with
+  | nil => rfl
+  | cons e r ih => cases e <;> simp [deckRecList, entryCells, ih]
+
+theorem apply_deck (w : World) (o : WOp) (j : Nat) :
+    ((w.apply o).shares j).deck =
+      match o with
+      | .push s e => if j = s then (w.shares j).deck ++ [e] else (w.shares j).deck
+      | _ => (w.shares j).deck := by
+  cases o with
+  | setStamp t => rfl
+  | advance d => rfl
+  | write s2 k v =>
+    simp only [World.apply]
+    by_cases hs : j = s2
+    · subst hs; rw [setShare_same]
+    · rw [setShare_other _ _ _ _ hs]
+  | poke s2 k v =>
+    simp only [World.apply]
+    by_cases hs : j = s2
+    · subst hs; rw [setShare_same]
+    · rw [setShare_other _ _ _ _ hs]
+  | append s2 k a =>
+    simp only [World.apply]
+    split
+    · by_cases hs : j = s2
+      · subst hs; rw [setShare_same]
+      · rw [setShare_other _ _ _ _ hs]
+    · rfl
+  | push s2 e =>
+    simp only [World.apply]
+    by_cases hs : j = s2
+    · subst hs; rw [setShare_same]; simp
+    · rw [setShare_other _ _ _ _ hs]; simp [hs]
+
+/-- the field lists of the log on which a control acts -/
+theorem actLog_fields (s : S1) (c : Ctl) (hi : Inv s) :
+    (actLog s c).fields = (match c with | .start => prepFields s.world s.log.reopen | _ => s.log.fields) := by
+  cases c <;> simp only [actLog]
+  rw [startLog_eq s hi]
+
+theorem fields_of_same {l l' : Log} (h : SameCfg l l') : l'.fields = l.fields := by
+  obtain ⟨st, ls, dk, rfl⟩ := h; rfl
+
+/-- field lists after a protocol-respecting step -/
+theorem step_fields (s : S1) (op : Op) (hi : Inv s) (hok : ∀ c, op = .ctl c → ctlOk s.status c = true) :
+    (s.step op).1.log.fields =
+      (match op with | .ctl .start => prepFields s.world s.log.reopen | _ => s.log.fields) := by
+  cases op with
+  | w o => rfl
+  | ctl c =>
+    simp only [S1.step]
+    rw [send_shape s c hi (hok c rfl)]
+    cases c with
+    | ready => rfl
+    | abort => rfl
+    | run => exact fields_of_same (act_same _ _)
+    | start =>
+      simp only []
+      rw [fields_of_same (act_same _ _), startLog_eq s hi]
+    | stop =>
+      simp only []
+      split
+      · rfl
+      · show (s.log.act s.world).2.1.fields = s.log.fields
+        exact fields_of_same (act_same _ _)
+
+theorem prepFields_keep_nonstreak (w : World) (l : Log) (hr : l.rule ≠ .streak) (tag f : String)
+    (fs : List String) (h : dget l.reopen.fields tag = some (f :: fs)) :
+    dget (prepFields w l.reopen) tag = some (f :: fs) := by
+  have : l.reopen.rule ≠ .streak := by rw [(reopen_same l).2.2.2.2.2.1]; exact hr
+  simp only [prepFields, this, if_false]
+  exact defaultFields_keep _ _ _ _ _ _ h
+
+def deckPhi (s : S1) (sid : Nat) (fs : List String) : List (List (Option Val)) :=
+  s.recs.map (·.cells) ++ entryCells fs (s.world.shares sid).deck
+
+theorem deck_step (s : S1) (op : Op) (hi : Inv s) (hr : s.log.rule = .deck)
+    (hok : ∀ c, op = .ctl c → ctlOk s.status c = true)
+    (tag : String) (sid : Nat) (rest : Dict Nat) (f : String) (fs : List String)
+    (hl : s.log.loggees = (tag, sid) :: rest) (hf : dget s.log.fields tag = some (f :: fs)) :
+    deckPhi (s.step op).1 sid (f :: fs) = deckPhi s sid (f :: fs) ++ entryCells (f :: fs) (pushed sid [op]) ∧
+    dget (s.step op).1.log.fields tag = some (f :: fs) ∧
+    (∀ c, op = .ctl c → isRun s.status c = true → ((s.step op).1.world.shares sid).deck = []) := by
+  have hfield : dget (s.step op).1.log.fields tag = some (f :: fs) := by
+    rw [step_fields s op hi hok]
+    have hkeep := prepFields_keep_nonstreak s.world s.log (by rw [hr]; simp) tag f fs
+      (by rw [(reopen_same s.log).2.2.1]; exact hf)
+    cases op with
+    | w o => exact hf
+    | ctl c => cases c <;> first | exact hf | exact hkeep
+  refine ⟨?_, hfield, ?_⟩
+  · cases op with
+    | w o =>
+      simp only [deckPhi, S1.step, S1.recs, apply_deck]
+      cases o with
+      | push s2 e =>
+        by_cases hs : sid = s2
+        · subst hs; simp [entryCells_append, pushed]
+        · have : ¬ s2 = sid := fun h => hs h.symm
+          simp [hs, this, entryCells, pushed]
+      | setStamp t => simp [entryCells, pushed]
+      | advance d => simp [entryCells, pushed]
+      | write s2 k v => simp [entryCells, pushed]
+      | poke s2 k v => simp [entryCells, pushed]
+      | append s2 k a => simp [entryCells, pushed]
+    | ctl c =>
+      have hc := hok c rfl
+      obtain ⟨h1, h2, _⟩ := send_recs s c hi hc
+      simp only [deckPhi, S1.step, pushed, entryCells, List.append_nil, h1, h2]
+      by_cases hrun : isRun s.status c = true
+      · obtain ⟨f1, f2, f3, f4, f5, _, f7⟩ := actLog_facts s c hi hc hrun
+        have hfa : dget (actLog s c).fields tag = some (f :: fs) := by
+          rw [actLog_fields s c hi]
+          cases c
+          · simp [isRun] at hrun
+          · exact prepFields_keep_nonstreak s.world s.log (by rw [hr]; simp) tag f fs
+              (by rw [(reopen_same s.log).2.2.1]; exact hf)
+          · exact hf
+          · exact hf
+          · simp [isRun] at hrun
+        simp only [hrun, if_true]
+        rw [act_deck s.world (actLog s c) (f4.trans hr) f2 f3 tag sid rest (f :: fs) (f7.trans hl) hfa]
+        by_cases hd : (s.world.shares sid).deck = []
+        · simp [hd, f5, entryCells]
+        · simp only [hd, if_false, fileLines_some, recsOf_append, recsOf_records, f5, List.map_append,
+            deckRecList_cells, setShare_same, entryCells, List.append_nil]
+      · simp [hrun]
+  · intro c hop hrun
+    subst hop
+    have hc := hok c rfl
+    obtain ⟨_, h2, _⟩ := send_recs s c hi hc
+    obtain ⟨f1, f2, f3, f4, f5, _, f7⟩ := actLog_facts s c hi hc hrun
+    have hfa : dget (actLog s c).fields tag = some (f :: fs) := by
+      rw [actLog_fields s c hi]
+      cases c
+      · simp [isRun] at hrun
+      · exact prepFields_keep_nonstreak s.world s.log (by rw [hr]; simp) tag f fs
+          (by rw [(reopen_same s.log).2.2.1]; exact hf)
+      · exact hf
+      · exact hf
+      · simp [isRun] at hrun
+    simp only [S1.step, h2, hrun, if_true]
+    rw [act_deck s.world (actLog s c) (f4.trans hr) f2 f3 tag sid rest (f :: fs) (f7.trans hl) hfa]
+    by_cases hd : (s.world.shares sid).deck = []
+    · simp [hd]
+    · simp [hd, setShare_same]
+
+theorem deck_exec (s : S1) (h : List Op) (hi : Inv s) (hr : s.log.rule = .deck)
+    (hp : proto s.status h = true)
+    (tag : String) (sid : Nat) (rest : Dict Nat) (f : String) (fs : List String)
+    (hl : s.log.loggees = (tag, sid) :: rest) (hf : dget s.log.fields tag = some (f :: fs)) :
+    deckPhi (s.exec h) sid (f :: fs) = deckPhi s sid (f :: fs) ++ entryCells (f :: fs) (pushed sid h) := by
+  induction h generalizing s with
+  | nil => simp [S1.exec, pushed, entryCells]
+  | cons op restops ih =>
+    obtain ⟨hok, hi', hp'⟩ := thread s op restops hi hp
+    obtain ⟨d1, d2, _⟩ := deck_step s op hi hr hok tag sid rest f fs hl hf
+    have hsr := step_rule s op hi hok
+    simp only [S1.exec]
+    rw [ih _ hi' (hsr.1.trans hr) hp' (hsr.2.trans hl) d2, d1, List.append_assoc, ← entryCells_append]
+    congr 2
+    cases op with
+    | ctl c => simp [pushed]
+    | w o =>
+      cases o <;> simp only [pushed, List.nil_append]
+      split <;> simp
+
+/-! ## streak: every appended element is logged once, in order -/
+
+/-- field `q` of share `sid` after a writer operation that does not overwrite it -/
+theorem apply_queue (w : World) (o : WOp) (sid : Nat) (q : String) (items : List Atom)
+    (hq : dget (w.shares sid).data q = some (.list items))
+    (hno : noOverwrite sid q [.w o] = true) :
+    dget ((w.apply o).shares sid).data q = some (.list (items ++ appended sid q [.w o])) := by
+  cases o with
+  | setStamp t => simpa [World.apply, appended] using hq
+  | advance d => simpa [World.apply, appended] using hq
+  | push s2 e =>
+    simp only [World.apply, appended, List.append_nil]
+    by_cases hs : sid = s2
+    · subst hs; rw [setShare_same]; exact hq
+    · rw [setShare_other _ _ _ _ hs]; exact hq
+  | write s2 k v =>
+    simp only [noOverwrite, Bool.and_true, Bool.not_eq_true', Bool.and_eq_false_iff, beq_eq_false_iff_ne] at hno
+    simp only [World.apply, appended, List.append_nil]
+    by_cases hs : sid = s2
+    · subst hs
+      rw [setShare_same]
+      have hk : q ≠ k := by
+        rcases hno with h | h
+        · exact absurd rfl h
+        · exact fun e => h e.symm
+      simp only [dget_dset_other _ _ _ _ hk]; exact hq
+    · rw [setShare_other _ _ _ _ hs]; exact hq
+  | poke s2 k v =>
+    simp only [noOverwrite, Bool.and_true, Bool.not_eq_true', Bool.and_eq_false_iff, beq_eq_false_iff_ne] at hno
+    simp only [World.apply, appended, List.append_nil]
+    by_cases hs : sid = s2
+    · subst hs
+      rw [setShare_same]
+      have hk : q ≠ k := by
+        rcases hno with h | h
+        · exact absurd rfl h
+        · exact fun e => h e.symm
+      simp only [dget_dset_other _ _ _ _ hk]; exact hq
+    · rw [setShare_other _ _ _ _ hs]; exact hq
+  | append s2 k a =>
+    simp only [World.apply, appended]
+    by_cases hs : s2 = sid
+    · subst hs
+      by_cases hk : k = q
+      · subst hk
+        simp only [hq, and_self, if_true, setShare_same, dget_dset_same]
+      · have hk' : q ≠ k := fun e => hk e.symm
+        simp only [hk, and_false, if_false, List.append_nil]
+        split
+        · rw [setShare_same]; simp only [dget_dset_other _ _ _ _ hk']; exact hq
+        · exact hq
+    · have hs' : sid ≠ s2 := fun e => hs e.symm
+      simp only [hs, false_and, if_false, List.append_nil]
+      split
+      · rw [setShare_other _ _ _ _ hs']; exact hq
+      · exact hq
+
+def streakPhi (s : S1) (sid : Nat) (q : String) : List (List (Option Val)) :=
+  s.recs.map (·.cells) ++ (pending s.world sid q).map fun a => [some (.atom a)]
+
+theorem prepFields_streak (w : World) (l : Log) (hr : l.rule = .streak) (tag : String) (sid : Nat)
+    (rest : Dict Nat) (q : String) (qs : List String) (hl : l.loggees = (tag, sid) :: rest)
+    (hf : dget l.fields tag = some (q :: qs)) :
+    dget (prepFields w l.reopen) tag = some [q] := by
+  obtain ⟨_, _, r3, _, _, r6, r7⟩ := reopen_same l
+  simp only [prepFields, r6, hr, if_true, r7, hl, r3, hf]
+  exact dget_dset_same _ _ _
+
+theorem streak_step (s : S1) (op : Op) (hi : Inv s) (hr : s.log.rule = .streak)
+    (hok : ∀ c, op = .ctl c → ctlOk s.status c = true)
+    (tag : String) (sid : Nat) (rest : Dict Nat) (q : String) (qs : List String) (items : List Atom)
+    (hl : s.log.loggees = (tag, sid) :: rest) (hf : dget s.log.fields tag = some (q :: qs))
+    (hq : dget (s.world.shares sid).data q = some (.list items))
+    (hno : noOverwrite sid q [op] = true) :
+    streakPhi (s.step op).1 sid q =
+      streakPhi s sid q ++ (appended sid q [op]).map (fun a => [some (.atom a)]) ∧
+    (∃ qs', dget (s.step op).1.log.fields tag = some (q :: qs')) ∧
+    (∃ items', dget ((s.step op).1.world.shares sid).data q = some (.list items')) ∧
+    (∀ c, op = .ctl c → isRun s.status c = true → pending (s.step op).1.world sid q = []) := by
+  have hfield : ∃ qs', dget (s.step op).1.log.fields tag = some (q :: qs') := by
+    rw [step_fields s op hi hok]
+    have hkeep := prepFields_streak s.world s.log hr tag sid rest q qs hl hf
+    cases op with
+    | w o => exact ⟨qs, hf⟩
+    | ctl c => cases c <;> first | exact ⟨qs, hf⟩ | exact ⟨[], hkeep⟩
+  cases op with
+  | w o =>
+    have hq' := apply_queue s.world o sid q items hq hno
+    refine ⟨?_, hfield, ⟨_, hq'⟩, fun c hc => by cases hc⟩
+    simp only [streakPhi, S1.step, S1.recs, pending, hq, hq', List.map_append, List.append_assoc]
+  | ctl c =>
+    have hc := hok c rfl
+    obtain ⟨h1, h2, _⟩ := send_recs s c hi hc
+    by_cases hrun : isRun s.status c = true
+    · obtain ⟨f1, f2, f3, f4, f5, _, f7⟩ := actLog_facts s c hi hc hrun
+      have hfa : ∃ qs', dget (actLog s c).fields tag = some (q :: qs') := by
+        rw [actLog_fields s c hi]
+        cases c
+        · simp [isRun] at hrun
+        · exact ⟨[], prepFields_streak s.world s.log hr tag sid rest q qs hl hf⟩
+        · exact ⟨qs, hf⟩
+        · exact ⟨qs, hf⟩
+        · simp [isRun] at hrun
+      obtain ⟨qs', hfa⟩ := hfa
+      have hact := act_streak s.world (actLog s c) (f4.trans hr) f2 f3 tag sid rest q qs' items
+        (f7.trans hl) hfa hq
+      have hw' : (s.step (.ctl c)).1.world =
+          s.world.setShare sid { s.world.shares sid with data := dset (s.world.shares sid).data q (.list []) } := by
+        simp only [S1.step, h2, hrun, if_true, hact]
+      have hq'' : dget ((s.step (.ctl c)).1.world.shares sid).data q = some (.list []) := by
+        rw [hw', setShare_same]; exact dget_dset_same _ _ _
+      refine ⟨?_, hfield, ⟨[], hq''⟩, fun _ _ _ => by simp [pending, hq'']⟩
+      simp only [streakPhi, pending, hq'', hq, appended, List.map_nil, List.append_nil]
+      simp only [S1.step, h1, hrun, if_true, hact, fileLines_some, recsOf_append, recsOf_records, f5,
+        List.map_append, List.map_map]
+      congr 1
+    · have hnr : isRun s.status c = false := by simpa using hrun
+      have hw' : (s.step (.ctl c)).1.world = s.world := by simp only [S1.step, h2, hnr]; rfl
+      refine ⟨?_, hfield, ⟨items, by rw [hw']; exact hq⟩, fun c' hc' hr' => ?_⟩
+      · simp only [streakPhi, hw', appended, List.map_nil, List.append_nil]
+        simp only [S1.step, h1, hnr]
+        rfl
+      · cases hc'; exact absurd hr' hrun
+
+theorem streak_exec (s : S1) (h : List Op) (hi : Inv s) (hr : s.log.rule = .streak)
+    (hp : proto s.status h = true)
+    (tag : String) (sid : Nat) (rest : Dict Nat) (q : String) (qs : List String) (items : List Atom)
+    (hl : s.log.loggees = (tag, sid) :: rest) (hf : dget s.log.fields tag = some (q :: qs))
+    (hq : dget (s.world.shares sid).data q = some (.list items))
+    (hno : noOverwrite sid q h = true) :
+    streakPhi (s.exec h) sid q = streakPhi s sid q ++ (appended sid q h).map (fun a => [some (.atom a)]) := by
+  induction h generalizing s qs items with
+  | nil => simp [S1.exec, appended]
+  | cons op restops ih =>
+    obtain ⟨hok, hi', hp'⟩ := thread s op restops hi hp
+    have hno1 : noOverwrite sid q [op] = true ∧ noOverwrite sid q restops = true := by
+      cases op with
+      | ctl c => exact ⟨rfl, hno⟩
+      | w o =>
+        cases o <;> simp only [noOverwrite, Bool.and_eq_true, Bool.and_true] at hno ⊢ <;>
+          first | exact hno | exact ⟨rfl, hno⟩ | exact ⟨trivial, hno⟩
+    obtain ⟨d1, ⟨qs', d2⟩, ⟨items', d3⟩, _⟩ :=
+      streak_step s op hi hr hok tag sid rest q qs items hl hf hq hno1.1
+    have hsr := step_rule s op hi hok
+    simp only [S1.exec]
+    rw [ih _ qs' items' hi' (hsr.1.trans hr) hp' (hsr.2.trans hl) d2 d3 hno1.2, d1, List.append_assoc,
+      ← List.map_append]
+    congr 2
+    cases op with
+    | ctl c => simp [appended]
+    | w o =>
+      cases o <;> simp only [appended, List.nil_append]
+      split <;> simp
 
 end Ioflo.LogRules
